@@ -457,3 +457,10 @@ if (true) {
 
   // TODO: add a symbolic test for Rewrite
 }
+
+#[cfg(feature = "verif-hooks")]
+pub mod verif_hooks {
+  pub fn resolve_char(opt: &Option<i32>, dft: i32, len: i32) -> usize {
+    super::resolve_char(opt, dft, len)
+  }
+}
